@@ -435,7 +435,31 @@ def c07(k, ctx):
                        "encoder acceptance is probed only where the dense Gauss-Jordan of from_h finishes in seconds (<= 768 rows quick, <= 1536 thorough); invertibility of the last 3M columns is otherwise established by the rank oracle"]
 
 
-PIPELINES = {"C07": c07, "C06": c06, "C16": c16, "C13": c13, "C12": c12, "C14": c14, "C15": c15, "C18": c18, "C03": c03, "C04": c04, "C05": c05, "C01": c01, "C10": c10, "C08": c08, "C11": c11, "C02": c02, "C09": c09, "C17": c17}
+def c19(k, ctx):
+    ctx.rule = ("one case = one scenario in a child process: a constructor call (36 names x file/string x 5 patterns; encoders on systematic codes; failures: ~36 malformed alists, 10 near-miss "
+                "names, 11 malformed patterns on both constructors, unreadable paths, singular tails), followed for valid handles by 6 decode calls (f64/f32, output lengths 0..n, limits 0..50, "
+                "12 LLR classes) or 5 encode calls interleaved over two handles; each C call is paired with the Rust API result on fresh objects; non-trivial = distinct Decode/Encode calls + "
+                "constructor failures")
+    ctx.tlc_mc("MC_Factory")
+    ctx.vh("gen", "i2s", timeout=3000)
+    recs, rej = ctx.validate("Trace_C19")
+    ctx.require_events("Ctor", "Decode", "Encode")
+    for r in recs:
+        if r["e"] in ("Decode", "Encode"):
+            ctx.nontrivial_keys.add(k.key(r["i"], r.get("idx")))
+        elif r.get("why") != "valid":
+            ctx.nontrivial_keys.add(k.key(r["i"]))
+    ctx.extra["constructor_outcomes"] = {w: [sum(1 for r in recs if r["e"] == "Ctor" and r["why"] == w and r.get("null") is True),
+                                             sum(1 for r in recs if r["e"] == "Ctor" and r["why"] == w and r.get("null") is False)]
+                                         for w in ("valid", "alist", "name", "pattern", "file", "singular")}
+    ctx.extra["aborts"] = sum(1 for r in recs if r["o"] != "ok")
+    ctx.samples = [k.sample_case(recs, 1, 3), k.sample_case(recs, recs[-1]["i"])]
+    ctx.assumptions = ["TLC 1.8 + Json/IOUtils", "references come from the public Rust API on fresh objects (build_decoder + Puncturer::depuncture; Encoder::from_h + puncture), whose own correctness is C01-C05, C10, C15, C02",
+                       "alist texts that parse to a matrix with more rows than columns are outside C02's domain and are not given to the encoder constructor",
+                       "patterns fit the codeword length and contain a TRUE (an all-false or non-fitting pattern has no valid buffer length)"]
+
+
+PIPELINES = {"C19": c19, "C07": c07, "C06": c06, "C16": c16, "C13": c13, "C12": c12, "C14": c14, "C15": c15, "C18": c18, "C03": c03, "C04": c04, "C05": c05, "C01": c01, "C10": c10, "C08": c08, "C11": c11, "C02": c02, "C09": c09, "C17": c17}
 NOT_YET = {}
 
 
